@@ -88,7 +88,7 @@ pub fn build_plan(property: &str, tier: &str, seed: u64, ctx: &Arc<ExecCtx>) -> 
                 plan.units.push(Unit::C14Case(c));
             }
             seeded(&mut plan, "c14-random", if quick { 600 } else { 20_000 }, 14);
-            plan.rule = "enumeration: every (base configuration x file the fault-free warm-up reads x applicable fault kind x placement phase {cold, warm, before-lazy-full-unicode, switch-into, switch-back-out} x repair mode {CheckRuleFiles=All + later mtime, re-pointing set_rules_dir}) as one trace, plus seeded random fault/call/repair histories; a case is non-trivial when its fault was applied and at least one API call consumed faulted bytes (or probed a removed path) or an injected read error fired; distinct = distinct trace hashes".into();
+            plan.rule = "enumeration: every (base configuration x file the fault-free warm-up reads x applicable fault kind x placement phase {cold, warm, before-lazy-full-unicode, switch-into, switch-back-out} x repair mode {CheckRuleFiles=All + later mtime, re-pointing set_rules_dir}) as one trace, plus seeded random fault/call/repair histories; a case is non-trivial when its fault was applied and at least one API call consumed faulted bytes (or probed a removed path) or an injected read error fired; distinct = distinct trace hashes Every probe round starts with one rotating getter (overview, braille or speech) on the expression that is still current, before the round sets its expression again, compared with a fresh session; phase SwitchTouchBack makes ONE call in the faulted configuration and switches back.".into();
             plan.required_probes = vec!["fault_applied", "call_consumed_fault", "error_names_file", "recovered_identical", "equals_fresh_session", "first_getter_equals_fresh_session", "cached_table_keeps_answering"].into_iter().map(String::from).collect();
             plan.exhaustive = false;
         }
@@ -100,7 +100,7 @@ pub fn build_plan(property: &str, tier: &str, seed: u64, ctx: &Arc<ExecCtx>) -> 
             let en = props::c14::reachable_files(ctx, &props::common::Config::new("en", "ClearSpeak", "Nemeth"))?;
             plan.c14_reachable.insert("en".into(), en);
             seeded(&mut plan, "c08-random", if quick { 2000 } else { 60_000 }, 8);
-            plan.rule = "directed: every entry point as the first call of a session and right after set_rules_dir; every entry point right after each class of error; every preference name x 12 value classes followed by the calls that consume the value (under no engine, SSML, SAPI5); plus seeded random histories of 5-120 calls over all 16 entry points with valid, invalid, wrong-kind, empty, stale and out-of-range arguments (20% of the runs also break rule files mid-history). Oracles: every call returns Ok or Err (panics caught, aborts/hangs by the supervisor); recovery: a valid expression set next yields byte for byte what a fresh session with the same preference values yields; a failed set_mathml leaves the previous outputs unchanged. non-trivial = at least one call returned an error; distinct = distinct trace hashes".into();
+            plan.rule = "directed: every entry point as the first call of a session and right after set_rules_dir; every entry point right after each class of error; every preference name x 12 value classes followed by the calls that consume the value (under no engine, SSML, SAPI5); plus seeded random histories of 5-120 calls over all 16 entry points with valid, invalid, wrong-kind, empty, stale and out-of-range arguments (20% of the runs also break rule files mid-history). Oracles: every call returns Ok or Err (panics caught, aborts/hangs by the supervisor); recovery: a valid expression set next yields byte for byte what a fresh session with the same preference values yields; a failed set_mathml leaves the previous outputs unchanged. non-trivial = at least one call returned an error; distinct = distinct trace hashes Also: every pool expression (incl. the regression section: minimised expressions of repaired defects) through every output, navigation and routing call under every braille code and fed back; every documented value of the style preferences over stress expressions; wrong initialisations while a user preference file exists; preference-file edits in 12% of the fault-free random histories; expressions from the pools, a corpus of 1500 expressions of the repository's tests and a seeded MathML generator. After each history the session's preference values are compared with a fresh session reading the same files and replaying the accepted set_preference calls.".into();
             plan.required_probes = vec!["api_error_seen", "recovered_like_fresh_session", "failed_set_mathml_checked"].into_iter().map(String::from).collect();
         }
         "C12" => {
@@ -109,7 +109,7 @@ pub fn build_plan(property: &str, tier: &str, seed: u64, ctx: &Arc<ExecCtx>) -> 
                 plan.units.push(Unit::Fixed(Box::new(t)));
             }
             seeded(&mut plan, "c12-random", if quick { 2000 } else { 60_000 }, 12);
-            plan.rule = "directed: every preference name (prefs.yaml + API defaults + two unknown names) x 12 value classes interleaved with set_mathml; API-set values across touch / rewrite / edit of the system and user prefs.yaml (with and without a user configuration directory) and across set_rules_dir; Language/LanguageAuto flows; rejected-then-accepted sequences. Plus seeded random histories of set_preference/get_preference over all names x value classes interleaved with set_mathml, getters, navigation and (35% of runs) preference-file events. After every step the full preference snapshot is compared with the reference model (read-back normalisations, only documented derivations may change), rejected sets must leave all preferences and all outputs unchanged, unknown names and wrong-kind values must be rejected, braille-/speech-/navigation-only preferences must leave the other outputs byte-identical. non-trivial = at least one set was accepted and one rejected; distinct = distinct trace hashes".into();
+            plan.rule = "directed: every preference name (prefs.yaml + API defaults + two unknown names) x 12 value classes interleaved with set_mathml; API-set values across touch / rewrite / edit of the system and user prefs.yaml (with and without a user configuration directory) and across set_rules_dir; Language/LanguageAuto flows; rejected-then-accepted sequences. Plus seeded random histories of set_preference/get_preference over all names x value classes interleaved with set_mathml, getters, navigation and (35% of runs) preference-file events. After every step the full preference snapshot is compared with the reference model (read-back normalisations, only documented derivations may change), rejected sets must leave all preferences and all outputs unchanged, unknown names and wrong-kind values must be rejected, braille-/speech-/navigation-only preferences must leave the other outputs byte-identical. non-trivial = at least one set was accepted and one rejected; distinct = distinct trace hashes Also: scope scenarios (every braille code x speech engine x speech-only/braille-only preferences over chemistry, tables, capitals, numbers), a file change first noticed by routing/highlighting/navigation calls, and the whole preference snapshot against a fresh session replaying the accepted calls.".into();
             plan.required_probes = vec!["read_back_ok", "set_rejected", "frame_held", "rejected_set_left_outputs", "persisted_across_set_mathml", "prefs_file_event", "rejection_repeatable", "prefs_equal_fresh_session"].into_iter().map(String::from).collect();
         }
         "C09" => {
@@ -117,7 +117,7 @@ pub fn build_plan(property: &str, tier: &str, seed: u64, ctx: &Arc<ExecCtx>) -> 
                 plan.units.push(Unit::Fixed(Box::new(t)));
             }
             seeded(&mut plan, "c09-random", if quick { 2000 } else { 50_000 }, 9);
-            plan.rule = "directed: MathCAT's own output fed back in the same simulated millisecond with a repeating random part (prefix collision), tokens with MathCAT ids re-wrapped, duplicate author ids, bookmarks (SSML, SAPI5) and routing at five cells over every id-bearing expression; plus seeded random histories (expressions with no/some/all/duplicate author ids and fed-back output, navigation commands, key presses, set_navigation_node, speech with bookmarks, routing, across valid and failed changes of expression) under clock faults (stalled clock, same millisecond, clock near 36^3 ms, 2001) and repeated id-prefix randomness. Invariants after every step: every element has an id, ids distinct, navigation id / bookmark marks / routed ids are ids of the MathML returned by the last successful set_mathml. non-trivial = at least one handed-out id was checked; distinct = distinct trace hashes".into();
+            plan.rule = "directed: MathCAT's own output fed back in the same simulated millisecond with a repeating random part (prefix collision), tokens with MathCAT ids re-wrapped, duplicate author ids, bookmarks (SSML, SAPI5) and routing at five cells over every id-bearing expression; plus seeded random histories (expressions with no/some/all/duplicate author ids and fed-back output, navigation commands, key presses, set_navigation_node, speech with bookmarks, routing, across valid and failed changes of expression) under clock faults (stalled clock, same millisecond, clock near 36^3 ms, 2001) and repeated id-prefix randomness. Invariants after every step: every element has an id, ids distinct, navigation id / bookmark marks / routed ids are ids of the MathML returned by the last successful set_mathml. non-trivial = at least one handed-out id was checked; distinct = distinct trace hashes Also: every pool expression set and fed back (normally and with a repeating id prefix); generated expressions with no, some or all elements carrying author ids; the author-id oracle (an id of a token or 2-D element is returned on an element carrying the token's text; not lost, dropped on a split, or replaced by a wrapper's id).".into();
             plan.required_probes = vec!["ids_unique", "handed_out_id_checked", "bookmarks_seen", "routing_id_checked", "own_output_fed_back", "author_id_on_its_text"].into_iter().map(String::from).collect();
         }
         "C20" => {
@@ -125,7 +125,7 @@ pub fn build_plan(property: &str, tier: &str, seed: u64, ctx: &Arc<ExecCtx>) -> 
                 plan.units.push(Unit::Fixed(Box::new(t)));
             }
             seeded(&mut plan, "c20-random", if quick { 1200 } else { 30_000 }, 20);
-            plan.rule = "directed: for 7 braille codes x 4 highlight styles, get_braille(id) for the first 24 ids and a non-id, get_navigation_node_from_braille_position(k) for k in 0..40, len, len+1, and get_braille_position / get_braille(nav id) along a navigation walk; read errors injected at the 1st-3rd read inside routing with the user's highlight style Off; plus seeded random histories mixing navigation commands, changes of expression/code/style with the three queries (25% of runs with injected transient read errors under CheckRuleFiles=All). Oracle: the full preference snapshot, navigation position, plain braille and speech are identical before and after each query (also a failed one); fault-free: queries succeed for ids and cells of the current expression, start <= end <= length, returned ids belong to the expression; with Off or a foreign id the braille equals the plain get_braille of the empty id. non-trivial = at least one query checked; distinct = distinct trace hashes".into();
+            plan.rule = "directed: for 7 braille codes x 4 highlight styles, get_braille(id) for the first 24 ids and a non-id, get_navigation_node_from_braille_position(k) for k in 0..40, len, len+1, and get_braille_position / get_braille(nav id) along a navigation walk; read errors injected at the 1st-3rd read inside routing with the user's highlight style Off; plus seeded random histories mixing navigation commands, changes of expression/code/style with the three queries (25% of runs with injected transient read errors under CheckRuleFiles=All). Oracle: the full preference snapshot, navigation position, plain braille and speech are identical before and after each query (also a failed one); fault-free: queries succeed for ids and cells of the current expression, start <= end <= length, returned ids belong to the expression; with Off or a foreign id the braille equals the plain get_braille of the empty id. non-trivial = at least one query checked; distinct = distinct trace hashes Also: the routing-key pattern (set_navigation_node(id, offset>0), position queries, moves); 'unhighlighted' = braille of a fresh session with BrailleNavHighlight=Off; after every query braille, speech and overview equal those of a fresh session that made no query; the regression section of the pool under every code.".into();
             plan.required_probes = vec!["query_pure", "failed_query_pure", "position_in_range", "routing_ok", "unhighlighted_equal", "equals_braille_with_highlight_off", "outputs_like_session_without_queries", "highlight_ok"].into_iter().map(String::from).collect();
         }
         "C10" => {
@@ -143,7 +143,7 @@ pub fn build_plan(property: &str, tier: &str, seed: u64, ctx: &Arc<ExecCtx>) -> 
             if ctx.zipped_base.is_some() {
                 seeded(&mut plan, "c10-multi-zipped", if quick { 40 } else { 2_000 }, 2010);
             }
-            plan.rule = "directed: every ordered pair X->Y->X of values of Language, SpeechStyle, BrailleCode, Verbosity, TTS, DecimalSeparator, BlockSeparators, CheckRuleFiles over eight expressions with checkpoints before, away and back (getters 1..n times in different orders, navigation and routing between reads) and the Language=Auto/LanguageAuto flows; seeded random histories of 15-90 preference switches (39 preferences), set_mathml, getters, navigation, routing, set_rules_dir, clock advances and touches of rule files (mtime moves, content does not) with checkpoints in re-set and as-is mode: the four outputs must equal byte for byte (ids normalised) those of a fresh session given the session's current preference values; and multi-session runs: 2-3 sessions with different configurations in one world interleaved by the seeded baton scheduler at every API call and every seam call, each session's results must equal those of its solo run. non-trivial = at least one checkpoint or solo comparison was made; distinct = distinct trace hashes".into();
+            plan.rule = "directed: every ordered pair X->Y->X of values of Language, SpeechStyle, BrailleCode, Verbosity, TTS, DecimalSeparator, BlockSeparators, CheckRuleFiles over eight expressions with checkpoints before, away and back (getters 1..n times in different orders, navigation and routing between reads) and the Language=Auto/LanguageAuto flows; seeded random histories of 15-90 preference switches (39 preferences), set_mathml, getters, navigation, routing, set_rules_dir, clock advances and touches of rule files (mtime moves, content does not) with checkpoints in re-set and as-is mode: the four outputs must equal byte for byte (ids normalised) those of a fresh session given the session's current preference values; and multi-session runs: 2-3 sessions with different configurations in one world interleaved by the seeded baton scheduler at every API call and every seam call, each session's results must equal those of its solo run. non-trivial = at least one checkpoint or solo comparison was made; distinct = distinct trace hashes Also: sparse checkpoints (only the named getters are called) in directed sparse away-and-back scenarios; every pool expression under three configurations; multi-session runs in which all sessions work on the same expression under different configurations.".into();
             plan.required_probes = vec!["checkpoint_reset_equal", "checkpoint_asis_equal", "getter_repeated_same", "touch_forces_reload", "session_equals_solo_run"].into_iter().map(String::from).collect();
         }
         "C11" => {
@@ -151,7 +151,7 @@ pub fn build_plan(property: &str, tier: &str, seed: u64, ctx: &Arc<ExecCtx>) -> 
                 plan.units.push(Unit::Fixed(Box::new(t)));
             }
             seeded(&mut plan, "c11-random", if quick { 3000 } else { 60_000 }, 11);
-            plan.rule = "directed scenarios (place marker across a change of expression, undo after the invisible-operator retry loop, walks in every navigation mode, failed set_mathml, set_navigation_node) plus seeded random histories of 5-150 navigation commands / key presses / set_navigation_node / changes of expression (valid, invalid, fed-back) over every pool expression and navigation preference; after every step the reference model (position, undo stack, ten place markers) and the invariants (id in current expression, MathML and braille of the node retrievable) are checked; non-trivial = at least one command changed the position; distinct = distinct trace hashes".into();
+            plan.rule = "directed scenarios (place marker across a change of expression, undo after the invisible-operator retry loop, walks in every navigation mode, failed set_mathml, set_navigation_node) plus seeded random histories of 5-150 navigation commands / key presses / set_navigation_node / changes of expression (valid, invalid, fed-back) over every pool expression and navigation preference; after every step the reference model (position, undo stack, ten place markers) and the invariants (id in current expression, MathML and braille of the node retrievable) are checked; non-trivial = at least one command changed the position; distinct = distinct trace hashes Also: every key with each of the 16 modifier combinations from inside a table cell and from a token, in every navigation mode; expressions from pools, corpus and the seeded generator.".into();
             plan.required_probes = vec!["position_changed", "undo_returned", "moved_to_placemarker", "read_command_stayed", "expression_changed", "undo_at_bottom", "set_navigation_node_ok"].into_iter().map(String::from).collect();
         }
         _ => return Err(format!("no plan for property {}", property)),
